@@ -188,6 +188,7 @@ def check(spec, tag, overwrite, scratch, naming="plain"):
     with zipfile.ZipFile(src) as z:
         names0 = z.namelist()
         members0 = {n: z.read(n) for n in names0}
+        stored0 = {i.filename: (i.compress_type, i.compress_size, i.file_size) for i in z.infolist()}
     sha0 = sha(src)
     pkl_name = next(n for n in names0 if n.endswith("/data.pkl"))
 
@@ -237,6 +238,7 @@ def check(spec, tag, overwrite, scratch, naming="plain"):
         with zipfile.ZipFile(result) as z:
             names1 = z.namelist()
             members1 = {n: z.read(n) for n in names1}
+            stored1 = {i.filename: (i.compress_type, i.compress_size, i.file_size) for i in z.infolist()}
     except Exception as e:  # noqa: BLE001
         return fail(f"output is not a readable zip: {e!r}")
     if names1 != names0:
@@ -246,6 +248,10 @@ def check(spec, tag, overwrite, scratch, naming="plain"):
             continue
         if members1[n] != members0[n]:
             return fail(f"member {n} changed")
+        if stored1[n] != stored0[n]:
+            # "byte-identical" as a member of the archive: torch maps tensor data straight out of
+            # the file (mmap=True), which needs it stored the way it was
+            return fail(f"member {n} is stored differently (compress type, stored size, size): {stored1[n]} vs {stored0[n]}")
     if members1[pkl_name] != want_pkl:
         return fail("data.pkl is not the original with the exec payload inserted")
     import pickletools
@@ -381,7 +387,8 @@ def run_shard(spec_, seed):
     with Scratch("c16") as scratch:
         if spec_["idx"] < 4:
             # large models at explicit pickle protocols (multi-frame data.pkl, > 255 memo entries)
-            for big in (("many", 1500, 4), ("many", 200, 4), ("many", 1500, 2), ("many", 1500, 5))[spec_["idx"]::4]:
+            for big in (("many", 1500, 4), ("many", 200, 4), ("many", 1500, 2), ("many", 1500, 5), ("many", 30, 1),
+                        ("many", 300, 3), ("many", 30, 5), ("many", 300, 1))[spec_["idx"]::4]:
                 for overwrite in (False, True):
                     f = check(big, "big", overwrite, scratch, "plain")
                     res.note(repr((big, overwrite)), True, klass=[f"overwrite={overwrite}", "many-tensors", f"protocol{big[2]}"],
